@@ -269,7 +269,7 @@ pub fn file_level_docs() -> Vec<(Document, String)> {
         }
     }
     // versions x binary marks
-    let versions = ["1.4", "2.0", "", "1.7 extra words", "1.\u{e9}\u{4e2d}", "1.5%x", " 1.3"];
+    let versions = ["1.4", "2.0", "", "1.7 extra words", "1.\u{e9}\u{4e2d}", "1.5%x", " 1.3", "1.4 ", "1.4\t", "1.4  ", "1.4\u{a0}", "1.4\u{0}", "1.4\u{c}", "\t1.4\t", "1.4 x ", "1.4%", "1.4()<>[]{}/"];
     let marks: [&[u8]; 5] = [&[0xBB, 0xAD, 0xC0, 0xDE], &[], &[0x80], &[0xff; 8], &[0xe2, 0xe3, 0xcf, 0xd3]];
     for v in versions {
         for m in marks {
